@@ -16,11 +16,17 @@ Table entries are stl_specs.M(...) dictionaries (see the docstring there) with t
   dom     {placeholder: 'pin' | (lo, hi) | expression string} - the enumerated range of a variable when it is not
           the full one: 'pin' = one garbage value (pure OUTPUT variables), explicit in the theorem statement
   inst    parameter dicts may carry  A = alphabet name (ALPHA below; default 'none'), L = maximal input length
+  twice   (in io) {'mix': call template | None}: the block sends its fall-through exit back to its entry once, so the SAME code
+          instance runs twice (second pass from the local flags / buffers the first one left); `mix` is executed between the
+          passes (printers: xors the extra variable {m} into the value); spec = io_twice nv mix (<spec>)
+  stress, startup  (in io) sampled-only size sweeps on the real engines: operands 0, 1, 10^k-1, 10^k, 2^n-1, 2^(n-1), random
   sigmacro  (in io) macro name used in the violation signature instead of `name` (composed blocks that exhibit a listed finding)
   guard   Coq/python predicate instance `name args` : values -> input -> bool  describing the cases of a KNOWN,
           reported defect (theorem stated for `guarded_io guard spec`; `witness` gives (values, input) pairs for
           the generated `_refuted` examples; the real-engine runs keep using the unguarded spec)
 """
+import re
+
 from .stl_specs import M
 
 # ---------------------------------------------------------------------------------------------------------
@@ -35,6 +41,11 @@ ALPHA = {
     'hex16': [0x30, 0x39, 0x2f, 0x3a, 0x41, 0x46, 0x40, 0x47, 0x61, 0x66, 0x60, 0x67, 0x00, 0xff, 0x0a, 0xb1],
     # line readers: 'a' \n NUL 0xff '0' 0x0b (next to \n) 0x80
     'line7': [0x61, 0x0a, 0x00, 0xff, 0x30, 0x0b, 0x80],
+    # small alphabets of the "same code instance twice" blocks (two numerals / lines per input)
+    'dec4': [0x31, 0x39, 0x2d, 0x0a],                 # 1 9 - \n
+    'dec5': [0x31, 0x39, 0x2d, 0x0a, 0x20],           # 1 9 - \n space
+    'hex6': [0x30, 0x61, 0x46, 0x67, 0x00, 0xff],     # 0 a F g NUL 0xff
+    'line3': [0x61, 0x0a, 0x00],                      # a \n NUL
 }
 ALPHA_COQ = {k: ('all_bytes' if k == 'allbytes' else f'alpha_{k}') for k in ALPHA}
 ALPHA_TAG = {k: ('allbytes' if k == 'allbytes' else 'noinput' if k == 'none' else f'sample{len(v)}_{k}') for k, v in ALPHA.items()}
@@ -252,7 +263,7 @@ def _ptr_line_in(k):
             return None
         r = line_of(inb)
         if r is None:
-            return ('eof', [])
+            return None if len(inb) > k else ('eof', [])      # more unterminated bytes than cells: outside the spec
         ln, _ = r
         if len(ln) > k:
             return None
@@ -411,7 +422,35 @@ def _inst_fn(table, inst):
     return table[toks[0]](*[int(t, 0) for t in toks[1:]])
 
 
+def io_twice(nv, mix, S):
+    """mirror of StlIOSpec.io_twice: the same code instance executed twice"""
+    def f(vs, inb):
+        a, ex = list(vs[:nv]), list(vs[nv:])
+        r = S(a, list(inb))
+        if r is None or r[0] == 'eof':
+            return r
+        _, v1, x1, o1, u1, c1 = r
+        if x1 != 0:
+            return ('done', list(v1) + ex, x1, o1, u1, c1)
+        if u1 % 8:
+            return None
+        v1 = list(v1)
+        if mix and v1 and ex:
+            v1[0] ^= ex[0]
+        r2 = S(v1, list(inb[u1 // 8:]))
+        if r2 is None:
+            return None
+        if r2[0] == 'eof':
+            return ('eof', list(o1) + list(r2[1]))
+        _, v2, x2, o2, u2, c2 = r2
+        return ('done', list(v2) + ex, x2, list(o1) + list(o2), u1 + u2, list(c1) + list(c2))
+    return f
+
+
 def spec_fn(inst):
+    m = re.match(r'^io_twice (\d+) (\d+) \((.*)\)$', inst)
+    if m:
+        return io_twice(int(m.group(1)), int(m.group(2)), spec_fn(m.group(3)))
     return _inst_fn(SPECS_IO, inst)
 
 
@@ -427,6 +466,9 @@ def E(name, file, sig, call, vars, spec, io=None, **kw):
     io = io or {}
     e = M(name, file, sig, call, vars, spec, **kw)
     e['sigmacro'] = io.get('sigmacro')
+    e['twice'] = io.get('twice')          # None | {'mix': call template or None}: the same code instance executed twice
+    e['stress'] = io.get('stress')        # 'dec': sampled-only size sweep with operands that stress the decimal digit count
+    e['startup'] = io.get('startup')      # start-up line of sampled-only sweep blocks (default: the Config's)
     e['data'] = list(io.get('data', []))
     e['dom'] = dict(io.get('dom', {}))
     return e
@@ -677,3 +719,97 @@ C09 = [
       'hex.input_as_hex {n}, {a}, {x1}\n    hex.print_as_digit {n}, {a}, 0', [('a', 'hex', 'n')], 'echo_hex_digits {n}', exits=1,
       temps=[('upper', '1')], io={'dom': {'a': 'pin'}}, inst=I([P(n=2, A='hex16', L=3)], [P(n=2, A='hex16', L=3), P(n=3, A='hex16', L=3, w=[64])])),
 ] + _strings_entries()
+
+# ---------------------------------------------------------------------------------------------------------
+# the SAME code instance executed twice (local flags / buffers / carries left by the first pass), see StlIOSpec.io_twice
+
+_BY = {e['name']: e for e in C09}
+
+
+def TW(base, inst, mix=None, note=None):
+    b = _BY[base]
+    e = dict(b)
+    nv = len(b['vars'])
+    e['name'] = 'twice: ' + base
+    e['vars'] = list(b['vars'])
+    e['dom'] = dict(b['dom'])
+    if mix:
+        ph, kind, ex = b['vars'][0]
+        bits = f"({4 if kind == 'hex' else 1})*({ex})"
+        e['vars'].append(('m', kind, ex))
+        e['dom']['m'] = f'((1 << ({bits})) - 2, (1 << ({bits})) - 1)'      # value ^ 0xff..fe: (all digits, one digit) in both orders
+    e['twice'] = {'mix': mix}
+    e['spec'] = f"io_twice {nv} {1 if mix else 0} ({b['spec']})"
+    e['inst'] = inst
+    e['guard'] = None
+    e['witness'] = None
+    e['sigmacro'] = None
+    e['note'] = note or ('the fall-through exit returns once to the SAME code instance: the second pass starts from the local '
+                         'flags / buffers / carries the first one left' + ('; between the passes the value is xored with 0xff..fe' if mix else ''))
+    return e
+
+
+XH, XB = 'hex.xor {n}, {a}, {m}', 'bit.xor {n}, {a}, {m}'
+C09 += [
+    # readers: two numerals / digit groups / lines in one input
+    TW('hex.input_dec_int', I([P(n=2, A='dec4', L=5)], [P(n=2, A='dec4', L=5), P(n=1, A='dec4', L=5, w=[64])])),
+    TW('hex.input_dec_int_until', I([P(n=2, A='dec4', L=5)], [P(n=2, A='dec4', L=5)])),
+    TW('hex.input_dec_uint', I([P(n=2, A='dec4', L=4)], [P(n=2, A='dec4', L=5)])),
+    TW('hex.input_dec_uint_until', I([P(n=2, A='dec4', L=4)], [P(n=2, A='dec4', L=5)])),
+    TW('hex.input_as_hex/1', I([P(A='hex16', L=2, pin=1)], [P(A='hex16', L=3, pin=1)])),
+    TW('hex.input_as_hex', I([P(n=2, A='hex6', L=4)], [P(n=2, A='hex6', L=4)])),
+    TW('hex.input/1', I([P(A='hex16', L=2)], [P(A='hex16', L=3)])),
+    TW('bit.input/1', I([P(A='hex16', L=2)], [P(A='hex16', L=3)])),
+    # printers: (value, value ^ 0xff..fe) - a value needing all digits then a one-digit value, and the other way round
+    TW('hex.print_dec_uint', I([P(n=2)], [P(n=1), P(n=2), P(n=3, w=[64])]), mix=XH),
+    TW('hex.print_dec_int', I([P(n=2)], [P(n=1), P(n=2), P(n=3, w=[64])]), mix=XH),
+    TW('bit.print_dec_uint', I([P(n=8)], [P(n=3), P(n=8), P(n=10, w=[64])]), mix=XB),
+    TW('bit.print_dec_int', I([P(n=8)], [P(n=4), P(n=8), P(n=10, w=[64])]), mix=XB),
+    TW('hex.print_uint', I([P(n=2, p=1, up=1)], [P(n=2, p=1, up=1), P(n=3, p=0, up=0)]), mix=XH),
+    TW('hex.print_int', I([P(n=2, p=0, up=0)], [P(n=2, p=0, up=0), P(n=3, p=1, up=1)]), mix=XH),
+    TW('bit.print_hex_uint', I([P(n=8, p=0)], [P(n=8, p=0), P(n=12, p=1, w=[64])]), mix=XB),
+    TW('bit.print_hex_int', I([P(n=8, p=1)], [P(n=8, p=1), P(n=12, p=0, w=[64])]), mix=XB),
+    TW('bit.print_str', I([P(n=1)], [P(n=1)]), mix=XB.replace('{n}', '8*{n}')),
+    # casts with temporaries
+    TW('bit.hex2ascii', I([P(pin=1)], [P()])),
+    TW('bit.ascii2dec', I([P(pin=1)], [P(pin=1)])),
+    # buffer helpers (pointer copies, counters, byte buffers are locals of the macro)
+    TW('hex.input_ptr_line/k2', I([P(A='line3', L=4)], [P(A='line3', L=5)])),
+    TW('hex.print_ptr_text/k2', I([P(cap=8)], [P(cap=32)])),
+    TW('hex.print_ptr_line/k2', I([P()], [P()])),
+    TW('hex.fill_bytes/k2', I([P(cap=8)], [P(cap=32)])),
+    TW('hex.copy_bytes/k2', I([P(cap=8)], [P(cap=32)])),
+]
+
+
+# ---------------------------------------------------------------------------------------------------------
+# SIZE SWEEPS (tests on the real engines, labelled as samples): every size the macros accept in the range, operands that
+# stress the decimal digit count (0, 1, 10^k - 1, 10^k, 2^n - 1, 2^(n-1), negatives, random), compared with the mirror above
+
+def SW(base, sizes, stress, **extra):
+    b = _BY[base]
+    e = dict(b)
+    e['name'] = 'sweep: ' + base
+    e['inst'] = {'quick': [], 'thorough': [], 'sample': [P(n=n, **extra) for n in sizes]}
+    e['stress'] = stress
+    e['startup'] = 'stl.startup'
+    e['guard'] = None
+    e['witness'] = None
+    e['note'] = 'sampled-only size sweep on the real engines (not a theorem)'
+    return e
+
+
+C09 += [
+    SW('bit.print_dec_uint', range(1, 131), 'dec'),
+    SW('bit.print_dec_int', range(2, 131), 'sdec'),
+    SW('hex.print_dec_uint', range(1, 34), 'dec'),
+    SW('hex.print_dec_int', range(1, 34), 'sdec'),
+    SW('bit.print_hex_uint', (16, 64, 128), 'dec', p=1),
+    SW('bit.print_hex_int', (16, 64, 128), 'sdec', p=0),
+    SW('hex.print_uint', (5, 16, 33), 'dec', p=1, up=0),
+    SW('hex.print_int', (5, 16, 33), 'sdec', p=0, up=1),
+    SW('hex.print_as_digit', (5, 17, 33), 'dec', up=1),
+    SW('bit.print_as_digit', (17, 64, 130), 'dec'),
+    SW('stl.bit2hex', (9, 33, 65, 130), 'dec'),
+    SW('stl.hex2bit', (3, 9, 17, 33), 'dec'),
+]
